@@ -145,7 +145,7 @@ def parseSeg (s : String) : Option (List Tx × List Ret) :=
 def fmtVerdict : Verdict → String
   | .ok => "ok" | .tooMany => "too-many-copies" | .tooEarly => "copy-too-early" | .notIdentical => "copy-not-identical"
   | .copyAfterStop => "copy-after-stop" | .unknownRequest => "unknown-request" | .doubleReturn => "double-return"
-  | .spuriousSuccess => "spurious-success" | .noSuccess => "no-success" | .nstart => "nstart-exceeded"
+  | .spuriousSuccess => "spurious-success" | .noSuccess => "no-success" | .lastWindow => "no-success-last-copy-window" | .nstart => "nstart-exceeded"
 
 def judgeLine (line : String) : String :=
   match line.splitOn " || " with
